@@ -80,6 +80,19 @@ def opHist (args res : List String) : Verdict :=
     { spec := spec, model := model }
   | _ => { spec := some "bad-args" }
 
+/-- `after <A> <B> <e> => b:<digest of B built after A>:<digest of B built alone>` -/
+def opAfter (_args res : List String) : Verdict :=
+  match res with
+  | [g] =>
+    (match g.splitOn ":" with
+     | ["b", x, y] =>
+       -- the model is a function of (input, options): both digests are the same value there
+       { spec := if x == y then none else some "build-depends-on-what-the-thread-built-before",
+         model := if x == y then none else some "model-builds-are-history-free" }
+     | _ => { spec := some "bad-group" })
+  | "trap" :: _ => { spec := some "build-panicked", model := some "trap" }
+  | _ => { spec := some "bad-line" }
+
 /-- `threads <T> <seed> <k> => (input,e,m,v,k,digestThreaded,digestSingle)*` -/
 def opThreads (_args res : List String) : Verdict :=
   let rows := res.map (·.splitOn ",")
